@@ -240,6 +240,7 @@ def C03(tier):
              cases_from=["MC_Select_emit", "MC_Partition_emit"], params={"frame": "1", "strides": "2/-3"}),
         dict(name="quantile_frame", family="quant", trace="Trace_Quant", profile="dev", gen=dict(count=(2500, 25000))),
         dict(name="nan_frame", family="nan", trace="Trace_Nan", trace_constants=FIX3, profile="dev", gen=dict(count=(2500, 25000))),
+        dict(name="qskip_frame", family="minmax", trace="Trace_MinMax", profile="dev", gen=dict(count=(2000, 20000), params={"kinds": "qskip"})),
     ]
     models = [
         dict(module="Partition", name="MC_Partition",
@@ -293,6 +294,7 @@ def C14(tier):
         dict(name="random", family="minmax", trace="Trace_MinMax", profile="dev", gen=dict(count=(4000, 40000))),
         dict(name="lane_maps", family="nan", trace="Trace_Nan", trace_constants=FIX3, profile="dev",
              gen=dict(count=(1500, 15000), params={"kinds": "remove_nan_nd"})),
+        dict(name="notnone_surface", family="misc", trace="Trace_Misc", profile="dev", gen=dict(count=(600, 6000))),
     ]
     return dict(models=minmax_models(tier) + [
                     dict(module="RemoveNan", name="MC_RemoveNan",
